@@ -834,6 +834,24 @@ func bufferEscapes(c *core.Ctx, fn *ssa.Function, p ssa.Value, depth int, seen m
 				}
 			case *ssa.Store:
 				if x.Val == v {
+					if al, ok := x.Addr.(*ssa.Alloc); ok {
+						// a local variable: follow its loads; a spawned closure capturing it is an escape
+						for _, ar := range *al.Referrers() {
+							switch y := ar.(type) {
+							case *ssa.UnOp:
+								if y.Op == token.MUL {
+									walk(y)
+								}
+							case *ssa.MakeClosure:
+								for _, rr := range *y.Referrers() {
+									if isSpawn(rr) {
+										out = append(out, "captured (via variable "+al.Comment+") by a goroutine at "+c.Rel(y.Pos()))
+									}
+								}
+							}
+						}
+						continue
+					}
 					out = append(out, "stored to memory at "+c.Rel(x.Pos()))
 				}
 			case *ssa.Send:
@@ -890,6 +908,42 @@ func bufferEscapes(c *core.Ctx, fn *ssa.Function, p ssa.Value, depth int, seen m
 					if x.Common().IsInvoke() && (x.Common().Method.Name() == "Write" || x.Common().Method.Name() == "ExchangeContext") {
 						continue // io.Writer contract: must not retain/modify; Transport contract is what we check on each implementation
 					}
+					if x.Common().IsInvoke() {
+						// module interface: every implementation is followed
+						if iface, ok := x.Common().Value.Type().Underlying().(*types.Interface); ok {
+							found := 0
+							for _, f := range c.SrcFuncs() {
+								if f.Name() != x.Common().Method.Name() || f.Signature.Recv() == nil || f.Parent() != nil || !types.Implements(f.Signature.Recv().Type(), iface) {
+									continue
+								}
+								found++
+								for k, a := range args {
+									if a == v && k < len(f.Params) {
+										for _, e := range bufferEscapes(c, f, f.Params[k], depth+1, seen) {
+											out = append(out, core.FuncName(f)+": "+e)
+										}
+									}
+								}
+							}
+							if found > 0 {
+								continue
+							}
+						}
+					}
+					if viewReturningLib[n] {
+						// returns sub-slices of its argument without retaining it: follow the results
+						if val, ok := r.(ssa.Value); ok {
+							walk(val)
+							if refs := val.Referrers(); refs != nil {
+								for _, rr := range *refs {
+									if ex, ok := rr.(*ssa.Extract); ok {
+										walk(ex)
+									}
+								}
+							}
+						}
+						continue
+					}
 					out = append(out, "passed to "+core.ModName(n)+" at "+c.Rel(x.Pos()))
 				}
 			}
@@ -897,6 +951,12 @@ func bufferEscapes(c *core.Ctx, fn *ssa.Function, p ssa.Value, depth int, seen m
 	}
 	walk(p)
 	return out
+}
+
+// viewReturningLib: dependency functions that only read their []byte argument and return views into it.
+var viewReturningLib = map[string]bool{
+	"golang.org/x/sys/unix.ParseOneSocketControlMessage": true,
+	"golang.org/x/sys/unix.ParseSocketControlMessage":    true,
 }
 
 func r20d(c *core.Ctx) {
